@@ -1,15 +1,28 @@
 // wiring2coq: extracts, from app/app.go (and chains/btc/chain.go), how each chain kind's scan
 // start block is derived and handed to the chain object, as one record per chain kind:
 //
-//	reads_store           startBlock, err := blockstore.GetStartBlock(id, config.StartBlock, latest, fresh)
-//	head_if_nil           if startBlock == nil { head, err := X.LatestBlock(); ...; startBlock = head }
-//	aligns_to_interval    startBlock, err = chains.CalculateStartingBlock(startBlock, config.BlockInterval)
-//	passes_start_to_chain NewXChain(listener, ..., startBlock)  (btc: and chain.go stores it and
-//	                      PollEvents hands c.startBlock to the listener)
+//	reads_store    startBlock, err := blockstore.GetStartBlock(id, config.StartBlock, latest, fresh)
+//	head_if_nil    if startBlock == nil { head, err := X.LatestBlock(); ...; startBlock = head }
+//	align_arg      startBlock, err = chains.CalculateStartingBlock(startBlock, <align_arg>):
+//	               WHICH quantity the start block is aligned to - "interval" (config.BlockInterval),
+//	               "confirmations" (config.BlockConfirmations), "none" (no call), "other" (anything else)
+//	aligns_known   the value read from the block store / configuration goes through that call
+//	aligns_head    the head substituted for a nil start block goes through that call (the call may
+//	               stand after the `if startBlock == nil`, at the end of its body, or in its else branch)
+//	chain_arg      what NewXChain(listener, ..., <chain_arg>) is given as start block: "start" (the
+//	               startBlock derived above), "configured" (config.StartBlock), "nil", "other"
+//	               (btc: and chain.go stores it and PollEvents hands c.startBlock to the listener)
+//	listener_step  the block interval the EVM / Substrate listener is constructed with (its last
+//	               argument): "interval" | "confirmations" | "other"; btc: "none" (NewBtcListener takes
+//	               the configuration)
+//	listener_conf  the confirmation depth the EVM listener is constructed with: "confirmations" |
+//	               "interval" | "other"; substrate, btc: "none"
+//	aligns_to_interval, passes_start_to_chain   derived (the record's former flags)
 //
-// Only these statement shapes, in this order, are recognised.  Anything else that touches
-// `startBlock` in a chain branch, a missing branch / constructor, or a listener that is not built
-// over the shared block store and config.BlockInterval is "unrecognised wiring": exit status 2.
+// Only these statement shapes are recognised.  Anything else that touches `startBlock` in a chain
+// branch, a missing branch / constructor, or a listener that is not built over the shared block
+// store makes that kind's record {"error": "...", every source "other"} and the exit status 2; the
+// JSON object is still printed (the runners refuse to compose an "other").
 // Output: one JSON object on stdout.  Standard library only.
 package main
 
@@ -27,11 +40,20 @@ import (
 )
 
 type Wiring struct {
-	ReadsStore bool   `json:"reads_store"`
-	HeadIfNil  bool   `json:"head_if_nil"`
-	Aligns     bool   `json:"aligns_to_interval"`
-	Passes     bool   `json:"passes_start_to_chain"`
-	Ctor       string `json:"ctor"`
+	ReadsStore   bool   `json:"reads_store"`
+	HeadIfNil    bool   `json:"head_if_nil"`
+	AlignArg     string `json:"align_arg"`
+	AlignExpr    string `json:"align_expr,omitempty"`
+	AlignsKnown  bool   `json:"aligns_known"`
+	AlignsHead   bool   `json:"aligns_head"`
+	ChainArg     string `json:"chain_arg"`
+	ChainExpr    string `json:"chain_expr,omitempty"`
+	ListenerStep string `json:"listener_step"`
+	ListenerConf string `json:"listener_conf"`
+	Aligns       bool   `json:"aligns_to_interval"`
+	Passes       bool   `json:"passes_start_to_chain"`
+	Ctor         string `json:"ctor"`
+	Error        string `json:"error,omitempty"`
 }
 
 var fset = token.NewFileSet()
@@ -42,9 +64,26 @@ func str(n ast.Node) string {
 	return sb.String()
 }
 
+type wiringError string
+
+// fail abandons the record under construction: recovered per chain kind (unrecognised()) or in main.
 func fail(format string, a ...interface{}) {
-	fmt.Fprintf(os.Stderr, "unrecognised wiring: "+format+"\n", a...)
-	os.Exit(2)
+	panic(wiringError(fmt.Sprintf(format, a...)))
+}
+
+func unrecognised(msg string) Wiring {
+	return Wiring{AlignArg: "other", ChainArg: "other", ListenerStep: "other", ListenerConf: "other", Error: msg}
+}
+
+// source classifies an expression handed to a parameter that expects a block count.
+func source(e ast.Expr) string {
+	switch str(e) {
+	case "config.BlockInterval":
+		return "interval"
+	case "config.BlockConfirmations":
+		return "confirmations"
+	}
+	return "other"
 }
 
 func mentions(n ast.Node, name string) bool {
@@ -100,13 +139,62 @@ func selCall(e ast.Expr) (qual, name string, call *ast.CallExpr, ok bool) {
 	return str(sel.X), sel.Sel.Name, call, true
 }
 
-func extractKind(kind string, body []ast.Stmt, imports map[string]string, blockstoreVar string) Wiring {
+// alignCall recognises `startBlock, err = chains.CalculateStartingBlock(startBlock, X)` and returns X.
+func alignCall(kind string, s ast.Stmt, imports map[string]string) (ast.Expr, bool) {
+	as, ok := s.(*ast.AssignStmt)
+	if !ok || len(as.Rhs) != 1 {
+		return nil, false
+	}
+	q, name, call, ok := selCall(as.Rhs[0])
+	if !ok || name != "CalculateStartingBlock" {
+		return nil, false
+	}
+	if q != "chains" || imports[q] != "github.com/ChainSafe/sygma-relayer/chains" {
+		fail("%s: CalculateStartingBlock of %q (%q)", kind, q, imports[q])
+	}
+	if len(as.Lhs) != 2 || str(as.Lhs[0]) != "startBlock" || str(as.Lhs[1]) != "err" || as.Tok != token.ASSIGN {
+		fail("%s: unexpected CalculateStartingBlock statement: %s", kind, str(s))
+	}
+	if len(call.Args) != 2 || str(call.Args[0]) != "startBlock" {
+		fail("%s: CalculateStartingBlock arguments are (%s)", kind, argList(call))
+	}
+	return call.Args[1], true
+}
+
+func extractKind(kind string, body []ast.Stmt, imports map[string]string, blockstoreVar string, btcHasStartParam bool) (w Wiring) {
+	defer func() {
+		if p := recover(); p != nil {
+			e, ok := p.(wiringError)
+			if !ok {
+				panic(p)
+			}
+			w = unrecognised(string(e))
+		}
+	}()
 	spec := kinds[kind]
-	var w Wiring
-	state := 0 // 0 startBlock undefined, 1 defined, 2 head substituted, 3 aligned
+	w = Wiring{AlignArg: "none", ChainArg: "nil", ListenerStep: "none", ListenerConf: "none"}
+	defined := false  // startBlock, err := blockstore.GetStartBlock(...) seen
+	nilCheck := false // `if startBlock == nil` seen
+	headSubst := false
 	listenerVar, chainVar := "", ""
 	registered := false
-	for _, s := range body {
+	// one call site or several with the same second argument
+	align := func(x ast.Expr) {
+		a := source(x)
+		if w.AlignArg != "none" && (w.AlignArg != a || w.AlignExpr != str(x)) {
+			fail("%s: the start block is aligned to %s and to %s", kind, w.AlignExpr, str(x))
+		}
+		w.AlignArg, w.AlignExpr = a, str(x)
+	}
+	// alignAndPanic: stmts = [align call; if err != nil { panic(err) }]
+	alignAndPanic := func(stmts []ast.Stmt) (ast.Expr, bool) {
+		if len(stmts) != 2 || !isPanicOnErr(stmts[1]) {
+			return nil, false
+		}
+		return alignCall(kind, stmts[0], imports)
+	}
+	for i := 0; i < len(body); i++ {
+		s := body[i]
 		if as, ok := s.(*ast.AssignStmt); ok && len(as.Rhs) == 1 {
 			if q, name, call, ok := selCall(as.Rhs[0]); ok {
 				// listener construction
@@ -127,11 +215,22 @@ func extractKind(kind string, body []ast.Stmt, imports map[string]string, blocks
 					if !hasStore {
 						fail("%s: listener %s is not built over the shared block store %q", kind, name, blockstoreVar)
 					}
-					if kind != "btc" && args[len(args)-1] != "config.BlockInterval" {
-						fail("%s: listener %s does not take config.BlockInterval as its block interval", kind, name)
-					}
-					if kind == "btc" && (len(args) != 4 || args[2] != "config") {
-						fail("%s: unexpected NewBtcListener arguments (%s)", kind, strings.Join(args, ", "))
+					n := len(call.Args)
+					switch kind {
+					case "evm":
+						if n != 8 {
+							fail("%s: unexpected NewEVMListener arguments (%s)", kind, strings.Join(args, ", "))
+						}
+						w.ListenerConf, w.ListenerStep = source(call.Args[n-2]), source(call.Args[n-1])
+					case "substrate":
+						if n != 7 {
+							fail("%s: unexpected NewSubstrateListener arguments (%s)", kind, strings.Join(args, ", "))
+						}
+						w.ListenerStep = source(call.Args[n-1])
+					case "btc":
+						if n != 4 || args[2] != "config" {
+							fail("%s: unexpected NewBtcListener arguments (%s)", kind, strings.Join(args, ", "))
+						}
 					}
 					if len(as.Lhs) != 1 {
 						fail("%s: listener assignment shape", kind)
@@ -156,13 +255,24 @@ func extractKind(kind string, body []ast.Stmt, imports map[string]string, blocks
 							fail("%s: startBlock passed to %s in an unexpected position", kind, name)
 						}
 					}
-					if str(call.Args[last]) == "startBlock" {
-						if state == 0 {
+					hasParam := kind != "btc" || btcHasStartParam
+					switch a := str(call.Args[last]); {
+					case a == "startBlock":
+						if !defined {
 							fail("%s: startBlock used before it is defined", kind)
 						}
-						w.Passes = true
-					} else if mentions(call.Args[last], "startBlock") {
-						fail("%s: last argument of %s is an expression over startBlock: %s", kind, name, str(call.Args[last]))
+						if !hasParam {
+							fail("%s: app.go passes startBlock but %s has no start-block parameter", kind, name)
+						}
+						w.ChainArg = "start"
+					case mentions(call.Args[last], "startBlock"):
+						fail("%s: last argument of %s is an expression over startBlock: %s", kind, name, a)
+					case !hasParam || a == "nil":
+						w.ChainArg = "nil"
+					case a == "config.StartBlock":
+						w.ChainArg = "configured"
+					default:
+						w.ChainArg, w.ChainExpr = "other", a
 					}
 					w.Ctor = q + "." + name
 					chainVar = str(as.Lhs[0])
@@ -170,7 +280,7 @@ func extractKind(kind string, body []ast.Stmt, imports map[string]string, blocks
 				}
 				// startBlock, err := blockstore.GetStartBlock(...)
 				if name == "GetStartBlock" {
-					if len(as.Lhs) != 2 || str(as.Lhs[0]) != "startBlock" || as.Tok != token.DEFINE || state != 0 {
+					if len(as.Lhs) != 2 || str(as.Lhs[0]) != "startBlock" || as.Tok != token.DEFINE || defined {
 						fail("%s: unexpected GetStartBlock statement: %s", kind, str(s))
 					}
 					if q != blockstoreVar {
@@ -180,26 +290,24 @@ func extractKind(kind string, body []ast.Stmt, imports map[string]string, blocks
 						fail("%s: GetStartBlock arguments are (%s), expected (%s)", kind, argList(call), getStartArgs)
 					}
 					w.ReadsStore = true
-					state = 1
+					defined = true
 					continue
 				}
-				if q == "chains" && name == "CalculateStartingBlock" {
-					if imports[q] != "github.com/ChainSafe/sygma-relayer/chains" {
-						fail("%s: chains is %q", kind, imports[q])
-					}
-					if len(as.Lhs) != 2 || str(as.Lhs[0]) != "startBlock" || as.Tok != token.ASSIGN || state == 0 || state == 3 {
-						fail("%s: unexpected CalculateStartingBlock statement: %s", kind, str(s))
-					}
-					if argList(call) != "startBlock, config.BlockInterval" {
-						fail("%s: CalculateStartingBlock arguments are (%s)", kind, argList(call))
-					}
-					if chainVar != "" {
-						fail("%s: start block aligned after the chain was constructed", kind)
-					}
-					w.Aligns = true
-					state = 3
-					continue
+			}
+			// startBlock, err = chains.CalculateStartingBlock(startBlock, X) after / before the nil check
+			if x, ok := alignCall(kind, s, imports); ok {
+				if !defined || chainVar != "" {
+					fail("%s: CalculateStartingBlock in an unexpected place: %s", kind, str(s))
 				}
+				if i+1 >= len(body) || !isPanicOnErr(body[i+1]) {
+					fail("%s: the error of CalculateStartingBlock is not `if err != nil { panic(err) }`", kind)
+				}
+				align(x)
+				w.AlignsKnown = true
+				if headSubst {
+					w.AlignsHead = true
+				}
+				continue
 			}
 			// domains[id] = chain
 			if ix, ok := as.Lhs[0].(*ast.IndexExpr); ok && str(ix.X) == "domains" {
@@ -211,11 +319,12 @@ func extractKind(kind string, body []ast.Stmt, imports map[string]string, blocks
 			}
 		}
 		if is, ok := s.(*ast.IfStmt); ok && str(is.Cond) == "startBlock == nil" {
-			if state != 1 || is.Init != nil || is.Else != nil || chainVar != "" {
+			if !defined || nilCheck || is.Init != nil || chainVar != "" {
 				fail("%s: `if startBlock == nil` in an unexpected place", kind)
 			}
+			nilCheck = true
 			b := is.Body.List
-			okShape := len(b) == 3 && isPanicOnErr(b[1]) && str(b[2]) == "startBlock = head"
+			okShape := len(b) >= 3 && isPanicOnErr(b[1]) && str(b[2]) == "startBlock = head"
 			if okShape {
 				as, ok := b[0].(*ast.AssignStmt)
 				okShape = ok && len(as.Lhs) == 2 && str(as.Lhs[0]) == "head" && len(as.Rhs) == 1
@@ -224,11 +333,39 @@ func extractKind(kind string, body []ast.Stmt, imports map[string]string, blocks
 					okShape = ok && name == "LatestBlock" && len(call.Args) == 0
 				}
 			}
+			var inThen, inElse ast.Expr
+			if okShape && len(b) > 3 { // the head is aligned inside the branch
+				inThen, okShape = alignAndPanic(b[3:])
+			}
 			if !okShape {
 				fail("%s: unrecognised body of `if startBlock == nil`: %s", kind, str(is.Body))
 			}
-			w.HeadIfNil = true
-			state = 2
+			if is.Else != nil { // a start block that is known beforehand is aligned in the else branch
+				eb, ok := is.Else.(*ast.BlockStmt)
+				if !ok {
+					fail("%s: unrecognised else branch of `if startBlock == nil`: %s", kind, str(is.Else))
+				}
+				if inElse, ok = alignAndPanic(eb.List); !ok {
+					fail("%s: unrecognised else branch of `if startBlock == nil`: %s", kind, str(is.Else))
+				}
+			}
+			if w.AlignsKnown {
+				// CalculateStartingBlock was already called: with a nil start block it returned an
+				// error and app.Run panicked, so this branch is never taken
+				if inThen != nil || inElse != nil {
+					fail("%s: the start block is aligned before and inside `if startBlock == nil`", kind)
+				}
+				continue
+			}
+			w.HeadIfNil, headSubst = true, true
+			if inThen != nil {
+				align(inThen)
+				w.AlignsHead = true
+			}
+			if inElse != nil {
+				align(inElse)
+				w.AlignsKnown = true
+			}
 			continue
 		}
 		if mentions(s, "startBlock") {
@@ -241,17 +378,28 @@ func extractKind(kind string, body []ast.Stmt, imports map[string]string, blocks
 	if !registered {
 		fail("%s: the chain is not registered in domains", kind)
 	}
+	w.Aligns = w.AlignArg == "interval" && w.AlignsKnown && w.AlignsHead
+	w.Passes = w.ChainArg == "start"
+	// recognised shape, but a quantity nobody knows how to compose: the record stands, with the note
+	switch {
+	case w.AlignArg == "other":
+		w.Error = fmt.Sprintf("%s: the start block is aligned to %s", kind, w.AlignExpr)
+	case w.ChainArg == "other":
+		w.Error = fmt.Sprintf("%s: %s is given %s as start block", kind, w.Ctor, w.ChainExpr)
+	case w.ListenerStep == "other" || w.ListenerConf == "other":
+		w.Error = fmt.Sprintf("%s: %s is built with an unrecognised block interval / confirmation depth", kind, spec.listenerCtor)
+	}
 	return w
 }
 
-// btcChainPasses inspects chains/btc/chain.go: does NewBtcChain store a startBlock parameter, and
+// btcChain inspects chains/btc/chain.go: has NewBtcChain a startBlock parameter, does it store it, and
 // does PollEvents hand c.startBlock to the listener?
-func btcChainPasses(path string) bool {
+func btcChain(path string) (hasParam, stores bool) {
 	f, err := parser.ParseFile(fset, path, nil, 0)
 	if err != nil {
 		fail("cannot parse %s: %v", path, err)
 	}
-	stores, polls := false, false
+	polls := false
 	sawCtor, sawPoll := false, false
 	for _, d := range f.Decls {
 		fd, ok := d.(*ast.FuncDecl)
@@ -261,7 +409,6 @@ func btcChainPasses(path string) bool {
 		switch fd.Name.Name {
 		case "NewBtcChain":
 			sawCtor = true
-			hasParam := false
 			for _, p := range fd.Type.Params.List {
 				for _, n := range p.Names {
 					if n.Name == "startBlock" && str(p.Type) == "*big.Int" {
@@ -306,15 +453,30 @@ func btcChainPasses(path string) bool {
 	if !sawCtor || !sawPoll || !polls {
 		fail("btc: chains/btc/chain.go lacks NewBtcChain / PollEvents handing c.startBlock to the listener")
 	}
-	return stores
+	return hasParam, stores
 }
 
-func main() {
-	if len(os.Args) < 2 {
-		fmt.Fprintln(os.Stderr, "usage: wiring2coq <repo>")
-		os.Exit(3)
+// btcParam: whether NewBtcChain has a start-block parameter (no judgement on what it does with it).
+func btcParam(path string) bool {
+	f, err := parser.ParseFile(fset, path, nil, 0)
+	if err != nil {
+		return false
 	}
-	repo := os.Args[1]
+	for _, d := range f.Decls {
+		if fd, ok := d.(*ast.FuncDecl); ok && fd.Name.Name == "NewBtcChain" {
+			for _, p := range fd.Type.Params.List {
+				for _, n := range p.Names {
+					if n.Name == "startBlock" && str(p.Type) == "*big.Int" {
+						return true
+					}
+				}
+			}
+		}
+	}
+	return false
+}
+
+func extractAll(repo string) map[string]Wiring {
 	f, err := parser.ParseFile(fset, filepath.Join(repo, "app", "app.go"), nil, 0)
 	if err != nil {
 		fail("cannot parse app/app.go: %v", err)
@@ -349,6 +511,8 @@ func main() {
 	if blockstoreVar == "" {
 		fail("no `x := store.NewBlockStore(db)` (sygma-core store) in Run")
 	}
+	chainGo := filepath.Join(repo, "chains", "btc", "chain.go")
+	hasParam := btcParam(chainGo)
 	out := map[string]Wiring{}
 	nsw := 0
 	ast.Inspect(run.Body, func(n ast.Node) bool {
@@ -375,7 +539,7 @@ func main() {
 					body = b.List
 				}
 			}
-			out[kind] = extractKind(kind, body, imports, blockstoreVar)
+			out[kind] = extractKind(kind, body, imports, blockstoreVar, hasParam)
 		}
 		return false
 	})
@@ -387,10 +551,58 @@ func main() {
 			fail("no case %q", k)
 		}
 	}
-	if !btcChainPasses(filepath.Join(repo, "chains", "btc", "chain.go")) && out["btc"].Passes {
-		fail("btc: app.go passes startBlock but NewBtcChain does not store it")
+	// chains/btc/chain.go: the record of app.go's btc branch stands (the runners call the real
+	// NewBtcChain / PollEvents anyway); what is unrecognised there is reported
+	if b := out["btc"]; b.Error == "" {
+		func() {
+			defer func() {
+				if p := recover(); p != nil {
+					e, ok := p.(wiringError)
+					if !ok {
+						panic(p)
+					}
+					b.Error = string(e)
+				}
+			}()
+			if _, stores := btcChain(chainGo); !stores && b.Passes {
+				fail("btc: app.go passes startBlock but NewBtcChain does not store it")
+			}
+		}()
+		out["btc"] = b
 	}
+	return out
+}
+
+func main() {
+	if len(os.Args) < 2 {
+		fmt.Fprintln(os.Stderr, "usage: wiring2coq <repo>")
+		os.Exit(3)
+	}
+	var out map[string]Wiring
+	func() {
+		defer func() {
+			if p := recover(); p != nil {
+				e, ok := p.(wiringError)
+				if !ok {
+					panic(p)
+				}
+				out = map[string]Wiring{}
+				for k := range kinds {
+					out[k] = unrecognised(string(e))
+				}
+			}
+		}()
+		out = extractAll(os.Args[1])
+	}()
 	enc := json.NewEncoder(os.Stdout)
 	enc.SetIndent("", " ")
 	_ = enc.Encode(out)
+	rc := 0
+	for _, k := range []string{"evm", "substrate", "btc"} {
+		if e := out[k].Error; e != "" {
+			fmt.Fprintf(os.Stderr, "unrecognised wiring: %s\n", e)
+			rc = 2
+		}
+	}
+	os.Exit(rc)
 }
